@@ -156,6 +156,8 @@ def rule_store_close(ctx, r, which=("tracked jobs", "spec hashes")):
                 ("invalidate(A), invalidate(missing) then close", dict(base), [("invalidate", "A"), ("invalidate", "ZZ")], {"B": "⟦V_B⟧"}, True),
                 ("invalidate of the last record then close", {"A": "⟦V_A⟧"}, [("invalidate", "A")], {}, True),
             ]
+        if label == "tracked jobs":
+            scenarios += [("submit(T) then close", dict(base), [("submit", "T")], None, True)]
         n_ok = 0
         for name, table, script, want, must_write in scenarios:
             events, err, obj = eval_close(ctx, ckey, attr, table, script, disk={"A": "⟦STALE⟧", "Z": "⟦STALE_Z⟧"})
@@ -168,7 +170,11 @@ def rule_store_close(ctx, r, which=("tracked jobs", "spec hashes")):
                 pass
             dumps = [e for e in events if e[0] == "dump"]
             if not dumps:
-                if must_write:
+                clobber = [e for e in events if (e[0] == "replace" and e[2] == lpath) or (e[0] == "open" and e[1] == lpath and any(ch in str(e[2]) for ch in "wx+"))]
+                if clobber:
+                    r.violation(con + f"::{name}", f"{label}: close() replaces/truncates the state file without writing the table into it ({clobber[0][0]}): the next gwf "
+                                "invocation finds an empty, unreadable state file", cm.where)
+                elif must_write:
                     r.violation(con + f"::{name}", f"{label}: after `{name}` close() writes nothing: the change made by this command is never persisted "
                                 "(the old records come back at the next invocation)", cm.where)
                 else:
